@@ -673,6 +673,90 @@ def known_empty(atoms, name: str) -> Optional[bool]:
     return None
 
 
+def nonnull_at(fa: FuncAnalysis) -> Dict[Any, Set[str]]:
+    """forward must-analysis: the local names that are known not to be None on entry to each CFG node.
+    A name becomes known through an edge fact (`x is not None`, a false `x is None`, a true `x`), through an assignment of a
+    display, a non-None constant, a constructed object, or of a name that is known; an assignment of anything else forgets
+    it; paths meet by intersection."""
+    from .cfg import assigned_names
+
+    cfg = fa.cfg
+
+    def edge_gen(facts) -> Set[str]:
+        out: Set[str] = set()
+        for a, pol in facts:
+            if isinstance(a, ast.Name) and pol:
+                out.add(a.id)
+            if isinstance(a, ast.Compare) and len(a.ops) == 1 and isinstance(a.left, ast.Name) and isinstance(a.comparators[0], ast.Constant) and a.comparators[0].value is None:
+                if (isinstance(a.ops[0], ast.IsNot) and pol) or (isinstance(a.ops[0], ast.Is) and not pol):
+                    out.add(a.left.id)
+        return out
+
+    def value_nonnull(v: ast.AST, n, known: Set[str]) -> bool:
+        if isinstance(v, ast.Name):
+            return v.id in known
+        if isinstance(v, (ast.List, ast.Tuple, ast.Dict, ast.Set, ast.ListComp, ast.SetComp, ast.DictComp, ast.GeneratorExp, ast.JoinedStr, ast.Lambda)):
+            return True
+        if isinstance(v, ast.Constant):
+            return v.value is not None
+        if isinstance(v, ast.Call):
+            try:
+                t = strip_sites(fa.term_of(v, n))
+            except AnalysisError:
+                return False
+            if t[0] == "app" and t[1][0] == "global":
+                from .model import ClassInfo
+
+                try:
+                    return isinstance(fa.model.lookup_target(t[1][1]), ClassInfo)
+                except Exception:
+                    return False
+            return t[0] == "new"
+        return False
+
+    names_all = set()
+    for n in cfg.nodes:
+        if n.ast is not None:
+            names_all |= assigned_names(n.stmt if n.kind in ("stmt", "for", "with", "return", "raisestmt") and n.stmt is not None else n.ast)
+        for _s, fs in n.succ:
+            names_all |= edge_gen(fs)
+    IN = {n: set(names_all) for n in cfg.nodes}
+    OUT = {n: set(names_all) for n in cfg.nodes}
+    IN[cfg.entry] = set()
+    OUT[cfg.entry] = set()
+    changed = True
+    while changed:
+        changed = False
+        for n in cfg.nodes:
+            if n is cfg.entry:
+                continue
+            acc = None
+            for p_, fs in n.pred:
+                s_ = OUT[p_] | edge_gen(fs)
+                acc = s_ if acc is None else (acc & s_)
+            new_in = acc or set()
+            if new_in != IN[n]:
+                IN[n] = new_in
+                changed = True
+            out = set(new_in)
+            if n.ast is not None:
+                src = n.stmt if n.kind in ("stmt", "for", "with", "return", "raisestmt") and n.stmt is not None else n.ast
+                ks = assigned_names(src)
+                out -= ks
+                if n.kind == "stmt" and isinstance(src, ast.Assign) and len(src.targets) == 1:
+                    tg = src.targets[0]
+                    if isinstance(tg, ast.Name) and value_nonnull(src.value, n, new_in):
+                        out.add(tg.id)
+                    elif isinstance(tg, ast.Tuple) and isinstance(src.value, ast.Tuple) and len(tg.elts) == len(src.value.elts):
+                        for a_, b_ in zip(tg.elts, src.value.elts):
+                            if isinstance(a_, ast.Name) and value_nonnull(b_, n, new_in):
+                                out.add(a_.id)
+            if out != OUT[n]:
+                OUT[n] = out
+                changed = True
+    return IN
+
+
 def term_known_empty(fa: FuncAnalysis, atoms, term: Term) -> Optional[bool]:
     """known_empty for any expression whose value is `term` (self.seen, finder.seen): True = empty, False = not empty"""
     for a, pol in atoms:
